@@ -13,7 +13,14 @@ logging.getLogger('formulas').setLevel(logging.CRITICAL)
 logging.getLogger('formulas.excel').setLevel(logging.CRITICAL)
 P, Q = M.P, M.Q
 F1 = __F1__          # fault of the first cell, fixed per generated copy
-NF = 8
+NF = 10
+import os, tempfile
+_DIR = tempfile.mkdtemp(prefix='c14-', dir=os.environ.get('VERIF_OUT', '/verif') + '/.work') if os.path.isdir(os.environ.get('VERIF_OUT', '/verif') + '/.work') else tempfile.mkdtemp(prefix='c14-')
+with open(os.path.join(_DIR, 'broken.xlsx'), 'wb') as _f:
+    _f.write(b'this is not a zip archive')       # a workbook file that exists but cannot be read
+import atexit, shutil
+atexit.register(shutil.rmtree, _DIR, True)
+_BROKEN = "'%s/[broken.xlsx]S'!A1" % _DIR.replace(os.sep, '/')
 
 
 def faulty(kind, healthy, arg):
@@ -25,11 +32,14 @@ def faulty(kind, healthy, arg):
             '=NONAME+%s' % arg,                  # 5 undefined name
             '=#REF!+%s' % arg,                   # 6 #REF! literal
             "=SUM('[b]ZZ'!A1:A2)+%s" % arg,      # 7 range on an absent sheet
+            '=%s+%s' % (_BROKEN, arg),           # 8 workbook file that exists but is unreadable
+            '=IF(%s>100,NONAME,OTHERNAME)+%s' % (arg, arg),   # 9 two different undefined names in one formula
             ][kind]
 
 
 def expected_error(kind):
-    return {1: ('#NAME?',), 2: ('#NAME?',), 3: ('#REF!',), 4: ('#REF!',), 5: ('#REF!', '#NAME?'), 6: ('#REF!',), 7: ('#REF!',)}[kind]
+    return {1: ('#NAME?',), 2: ('#NAME?',), 3: ('#REF!',), 4: ('#REF!',), 5: ('#REF!', '#NAME?'), 6: ('#REF!',), 7: ('#REF!',),
+            8: ('#REF!',), 9: ('#REF!', '#NAME?')}[kind]
 
 
 def build(k1, k2, k3):
@@ -42,6 +52,7 @@ def build(k1, k2, k3):
         P + 'D2': '=ISERROR(%sB2)' % P,
         P + 'D3': '=IF(ISERROR(%sA1),"bad","fine")' % Q,
         P + 'G1': '=%sA2*2+%sA1' % (P, P),
+        P + 'G2': '=IFERROR(NONAME,1)+IFERROR(OTHERNAME,2)+ISERROR(THIRDNAME)',
         P + 'H1': '=%sA1+1' % Q,
     }
 
@@ -56,7 +67,9 @@ def _run(k1, k2, k3, finish):
     # the cell that depends on nothing unresolved keeps its value
     if val(P + 'G1') != 11.0 or val(P + 'A1') != 5.0 or val(P + 'A2') != 3.0:
         return False
-    absent = (3, 4, 7)          # resolved to #REF! when the model is completed; blank otherwise (not loaded yet)
+    if val(P + 'G2') != 4.0:
+        return False                       # several undefined names, each intercepted on its own
+    absent = (3, 4, 7, 8)          # resolved to #REF! when the model is completed; blank otherwise (not loaded yet)
     def check(kind, got, healthy):
         if kind == 0:
             return got == healthy
@@ -93,8 +106,9 @@ def _run(k1, k2, k3, finish):
     return True
 
 
-def faults_ok(a0: bool, a1: bool, a2: bool, b0: bool, b1: bool, b2: bool, finish: bool) -> bool:
+def faults_ok(a0: bool, a1: bool, a2: bool, a3: bool, b0: bool, b1: bool, b2: bool, b3: bool, finish: bool) -> bool:
     """
+    pre: sel(a0, a1, a2, a3) < NF and sel(b0, b1, b2, b3) < NF
     post: _
     """
-    return concrete(_run, F1, sel(a0, a1, a2), sel(b0, b1, b2), True if finish else False)
+    return concrete(_run, F1, sel(a0, a1, a2, a3), sel(b0, b1, b2, b3), True if finish else False)
